@@ -48,6 +48,10 @@ def feature_spec():
         "/body/json": {"post": {"operationId": "post_json", "requestBody": {"required": True, "content": {"application/json": {"schema": {
             "type": "object", "properties": {"a": S, "n": I, "list": arr(S)}}}}}, "responses": ok},
                        "patch": {"operationId": "patch_json_opt", "requestBody": {"content": {"application/json": {"schema": {"type": "object", "properties": {"a": S}}}}}, "responses": ok}},
+        # bodies on methods other than POST / PUT / PATCH, and cookie parameters next to query parameters
+        "/body/del": {"delete": {"operationId": "delete_bulk", "requestBody": {"required": True, "content": {"application/json": {"schema": {"type": "object", "properties": {"a": S, "n": I}}}}}, "responses": ok},
+                      "get": {"operationId": "get_search", "parameters": [P("q", "query", S), P("consent", "cookie", {"type": "string", "default": "none"}), P("SESSIONID", "cookie", S, required=True)],
+                              "requestBody": {"required": True, "content": {"application/json": {"schema": {"type": "object", "properties": {"a": S}}}}}, "responses": ok}},
         "/body/form": {"post": {"operationId": "post_form", "requestBody": {"required": True, "content": {"application/x-www-form-urlencoded": {"schema": {
             "type": "object", "properties": {"a": S, "b": I}}}}}, "responses": ok}},
         "/body/text": {"post": {"operationId": "post_text", "requestBody": {"required": True, "content": {"text/plain": {"schema": S}}}, "responses": ok}},
@@ -108,6 +112,9 @@ def probes():
     out.append(("get_query", {"req": "r", "s": "", "shared": ""}, None))
     for body in ({"a": "x", "n": 5, "list": ["p", "q"]}, {"a": "ü \"q\" \\ \n", "n": -1}, {}):
         out.append(("post_json", {}, body))
+    out.append(("delete_bulk", {}, {"a": "gone", "n": 2}))
+    out.append(("get_search", {"q": "lamp"}, {"a": "term"}))
+    out.append(("get_search", {}, {}))
     out.append(("patch_json_opt", {}, {"a": "x"}))
     out.append(("patch_json_opt", {}, None))
     for body in ({"a": "x y&z=1+2", "b": 7}, {"a": "é"}, {}):
